@@ -800,6 +800,10 @@ def answer (line : String) : String :=
     match rtypeOfString ty, parseHex hex with
     | some t, some msg => answerRRSet t msg
     | _, _ => "bad-request"
+  | ["rrset", ty, hex, _exp] =>
+    match rtypeOfString ty, parseHex hex with
+    | some t, some msg => answerRRSet t msg
+    | _, _ => "bad-request"
   | ["nameeq", p1, p2, hex] =>
     match p1.toNat?, p2.toNat?, parseHex hex with
     | some a, some b, some msg => answerNameEq a b msg
